@@ -23,6 +23,12 @@ pub struct Thread {
 
 impl Thread {
     pub fn unpark(&self) {
+        // Reading the handle is an operation on the memory it lives in (a
+        // handle borrowed out of another thread's stack frame may be stale):
+        // the monitor is asked before `self` is read.
+        if let Some((s, me)) = sim::ctx() {
+            s.pre_touch(me, self as *const Self as usize);
+        }
         if let (Some((epoch, tid)), Some((s, me))) = (self.sim, sim::ctx()) {
             if s.epoch == epoch {
                 sim::unpark_model(s, me, tid as usize);
